@@ -47,6 +47,12 @@ def gen_unit(rng):
         e = g.gen(rng.choice(eg.KINDS), cur)
         args += ["--select=%s=c%d" % (eg.show(e, rng, rng.random() < 0.3), i)]
         cur = eg.Scope(cur.dot, cur.parents, cur.vars, cur.macros, dict(cur.sels, **{"c%d" % i: "any"}), True)
+    if rng.random() < 0.1 and "csv" not in out:
+        # one value through two printers of the run (the text inside a string made by stringify, and the row itself):
+        # what one of them did with a member name or a string is nothing to the other
+        extra = rng.sample(["--select=(stringify .)=js", "--select=.=whole", "--select=(stringify .obj)=jo", "--select=.nest=nn", "--select=(keys .)=ks",
+                            "--select=(concat \"\" (stringify (keys .)))=jk"], 3)
+        args += extra
     args += out
     args += ["--regular-expression-cache-size", str(rng.choice((0, 0, 1, 2)))]
     def seq(n, before=None):
